@@ -1258,10 +1258,17 @@ func (tx *FnTx) enterLoop(li *loopInfo, pre *State) *State {
 		}
 	}
 	// ghost call counters may change inside the loop: havoc every ghost touched (conservatively all)
-	touched := tx.ghostsTouchedIn(li)
+	touched, touchedSorts := tx.ghostsTouchedIn(li)
 	for k, g := range head.ghost {
 		if touched(k) {
 			head.ghost[k] = Term{S: tx.d.fresh("gh_"+k, g.Sort), Sort: g.Sort, GT: g.GT}
+		}
+	}
+	// a ghost that is first mentioned inside the loop is not in the state yet (absent = its entry value): it must be
+	// unknown at the loop head too, otherwise the head of an arbitrary iteration would be equated with function entry
+	for k, srt := range touchedSorts {
+		if _, ok := head.ghost[k]; !ok {
+			head.ghost[k] = Term{S: tx.d.fresh("gh_"+k, srt), Sort: srt}
 		}
 	}
 	li.head = head
@@ -1300,8 +1307,9 @@ func (tx *FnTx) enterLoop(li *loopInfo, pre *State) *State {
 }
 
 // ghostsTouchedIn: which ghost keys may change inside the loop (call traces, captures, ghost_ensures of callees).
-func (tx *FnTx) ghostsTouchedIn(li *loopInfo) func(string) bool {
+func (tx *FnTx) ghostsTouchedIn(li *loopInfo) (func(string) bool, map[string]string) {
 	exact := map[string]bool{}
+	sorts := map[string]string{}
 	prefixes := []string{}
 	for bb := range li.body {
 		for _, in := range bb.Instrs {
@@ -1333,6 +1341,19 @@ func (tx *FnTx) ghostsTouchedIn(li *loopInfo) func(string) bool {
 				exact["calls!"+n] = true
 				exact["callsAt!"+n] = true
 				prefixes = append(prefixes, "lastarg!"+n+"!", "lastret!"+n+"!", "lastargAt!"+n+"!", "lastretAt!"+n+"!")
+				sorts["calls!"+n] = "Int"
+				sorts["callsAt!"+n] = "(Array Int Int)"
+				sig := cc.Signature()
+				for i := 0; i < sig.Params().Len(); i++ {
+					st := tx.d.sortOf(sig.Params().At(i).Type())
+					sorts[fmt.Sprintf("lastarg!%s!%d", n, i)] = st
+					sorts[fmt.Sprintf("lastargAt!%s!%d", n, i)] = "(Array Int " + st + ")"
+				}
+				for i := 0; i < sig.Results().Len(); i++ {
+					st := tx.d.sortOf(sig.Results().At(i).Type())
+					sorts[fmt.Sprintf("lastret!%s!%d", n, i)] = st
+					sorts[fmt.Sprintf("lastretAt!%s!%d", n, i)] = "(Array Int " + st + ")"
+				}
 			}
 			if c != nil {
 				ids := map[string]bool{}
@@ -1341,6 +1362,9 @@ func (tx *FnTx) ghostsTouchedIn(li *loopInfo) func(string) bool {
 				}
 				for id := range ids {
 					exact[id] = true
+					if g, ok := tx.cs.Ghosts[id]; ok {
+						sorts[id] = g.Sort
+					}
 				}
 			}
 			if tx.c != nil {
@@ -1363,7 +1387,7 @@ func (tx *FnTx) ghostsTouchedIn(li *loopInfo) func(string) bool {
 			}
 		}
 		return false
-	}
+	}, sorts
 }
 
 // privateMapObject: free variable idx of closure fn is a cell that only ever holds map objects created in the parent
